@@ -1,5 +1,5 @@
 //@unit sm9_formulas
-//@serves C09 C10 C13 C17
+//@serves C09 C10 C13 C17 C20
 //@lean sm9_point_double sm9_point_add sm9_is_on_curve_affine sm9_is_on_curve_jacobian sm9_point_neg sm9_to_affine sm9_fp2_mul sm9_fp2_sqr sm9_fp2_a_mul_u sm9_fp2_mul_u sm9_fp2_sqr_u sm9_fp4_mul sm9_fp4_sqr sm9_fp4_a_mul_v sm9_fp4_mul_v sm9_fp4_sqr_v sm9_fp12_mul sm9_fp12_sqr
 //@tables sm9
 //@assume the G1 point formulas and the Fp2/Fp4/Fp12 products of gm-sm9 are covered by Lean ring identities generated from their current source (back end lean) and the 37x64 fixed-base table by exhaustive ground evaluation; the step from these to the assumed contracts of unit sm9_key (Point::point_mul, g_mul, pairing, Fp12::pow ...) is NOT machine-checked
